@@ -20,8 +20,28 @@ def rng_for(*coords):
 
 
 STRINGS = ["", "x", "héllo \U0001F40D", "a/b c", "id", "kind", "command", "range", "0", "null", "line\nbreak\t\"q\"", " z", "a\x00b", "\ud800 lone surrogate", "é vs é", "  ", "\\u0041 \\n not-an-escape", "long " + "xy" * 6000]
+# strings with particular CONTENT: number / JSON / keyword / wire-name look-alikes, separators, case, whitespace
+STRINGS += ["true", "1e3", "-0", "2147483648", "{}", "[1]", "class", "textDocument", "a://b", "C:\\x\\y", "trail ", "UPPER", "snake_case", "kebab-case", "dotted.name", "%41", "x\u2028y", "file:///x.py"]
 URIS = ["file:///a/b.py", "untitled:Untitled-1", "file:///c%3A/x%20y/z.ts", "vscode-notebook-cell://x#1"]
+URIS += ["FILE:///Upper/Scheme", "file:///c:/Users/x", "file://host/share/a%2Fb", "http://example.com/a?b=c#frag", "urn:isbn:0451450523", "file:///tmp/%E2%9C%93", "", "relative/path"]
 DECIMALS = [0.5, 1.0, -2.25, 1e-3, 0.0, 255.0, 1e21, -0.0, 1e3, 5e-324, 1.7976931348623157e308]
+NOTABLE_INTS = [2, 7, 10, 127, 128, 255, 256, 1000, 32767, 32768, 65535, 65536, 999999, 2**24, 2**30, 2**30 + 1, 2**31 - 2]
+
+
+def reorder(j, mode):
+    """The same JSON value with object keys in another order (1: reversed, 2: sorted, 3: sorted descending)."""
+    if isinstance(j, dict):
+        items = [(k, reorder(v, mode)) for k, v in j.items()]
+        if mode == 1:
+            items.reverse()
+        elif mode == 2:
+            items.sort(key=lambda kv: kv[0])
+        elif mode == 3:
+            items.sort(key=lambda kv: kv[0], reverse=True)
+        return dict(items)
+    if isinstance(j, list):
+        return [reorder(v, mode) for v in j]
+    return j
 
 
 def to_json(n):
@@ -136,9 +156,9 @@ class Gen:
         if n == "RegExp":
             return ".*"
         if n == "integer":
-            return r.choice([INT_MIN, INT_MIN + 1, -1, 0, 1, INT_MAX - 1, INT_MAX, r.randrange(INT_MIN, INT_MAX + 1)])
+            return r.choice([INT_MIN, INT_MIN + 1, -1, 0, 1, INT_MAX - 1, INT_MAX, r.randrange(INT_MIN, INT_MAX + 1), r.choice(NOTABLE_INTS) * r.choice([1, -1])])
         if n == "uinteger":
-            return r.choice([0, 1, 2, INT_MAX - 1, INT_MAX, r.randrange(0, INT_MAX + 1)])
+            return r.choice([0, 1, 2, INT_MAX - 1, INT_MAX, r.randrange(0, INT_MAX + 1), r.choice(NOTABLE_INTS)])
         if n == "decimal":
             if self.int_decimals:
                 return r.choice([0, 1, -3, 255])
